@@ -51,7 +51,7 @@ func (g *tgen) term(depth int, allowVars bool) *G {
 	case n == 11: // a list of single-character atoms (a "string")
 		var es []*G
 		for i, k := 0, 1+r.intn(3); i < k; i++ {
-			es = append(es, ga([]string{"a", "b", "c"}[r.intn(3)]))
+			es = append(es, ga([]string{"a", "b", "c", "é", "日"}[r.intn(5)]))
 		}
 		return glist(es, nil)
 	case n == 12:
@@ -76,7 +76,7 @@ func isCharList(t *G) (string, bool) {
 	s := ""
 	for t.K == 'c' && t.S == "." && len(t.Args) == 2 {
 		h := t.Args[0]
-		if h.K != 'a' || len(h.S) != 1 {
+		if h.K != 'a' || len([]rune(h.S)) != 1 {
 			return "", false
 		}
 		s += h.S
